@@ -171,6 +171,10 @@ func arrival(ev sim.Event, oneWay time.Duration, start, end int) time.Duration {
 		if touched(n-1, n) {
 			return -1
 		}
+	case sim.FlipSCID:
+		if p := sim.FlipSCIDPos(ev.Data); touched(p, p+1) {
+			return -1
+		}
 	case sim.Trunc1:
 		if touched(1, n) {
 			return -1
